@@ -232,6 +232,37 @@ def run(chk, repo, tier):
     chk.ob('C15-d', 'T-comparison', fi.key, 'selects start <= w <= end (closed on both sides)', lo and hi and len(sel) == 2,
            '; '.join(sorted(nf.fmt_atom(a) for a in sel)), fi.loc())
 
+    # pad: every appended wavelength gets exactly one appended value
+    fpad = cls.find_method('pad')
+    _, ppaths, _ = analyse(repo, fpad)
+    okpad, npad, detpad = True, 0, ''
+    for p in [x for x in ppaths if x.status != 'raise']:
+        st = stores(p)
+        if not ({'wave', 'value'} <= set(st)):
+            continue
+        wv, vv = st['wave'][0], st['value'][0]
+        wa, va = (wv.single_atom() if isinstance(wv, Poly) else None), (vv.single_atom() if isinstance(vv, Poly) else None)
+        if not (wa is not None and va is not None and is_app(wa, ('hstack', 'concatenate')) and is_app(va, ('hstack', 'concatenate'))
+                and isinstance(wa[2][0], Tup) and isinstance(va[2][0], Tup) and len(wa[2][0]) == len(va[2][0]) == 3):
+            continue
+        npad += 1
+        for k in (0, 2):
+            wpiece, vpiece = wa[2][0].items[k], va[2][0].items[k]
+            if isinstance(vpiece, Poly) and vpiece.const_value() is not None:
+                continue            # a constant pad value of 0 folds the sizing array away on this path
+            ones = [a for a in nf.value_atoms(vpiece) if is_app(a, ('ones', 'full', 'ones_like', 'full_like', 'zeros'))]
+            same = False
+            for o in ones:
+                arg = o[2][0]
+                same = same or arg == nf.attr(wpiece, 'shape') or arg == nf.attr(wpiece, 'size') or arg == wpiece
+            if not same:
+                okpad, detpad = False, f'{"left" if k == 0 else "right"} values {fmt(vpiece)[:100]} are not sized by the ' \
+                                       f'{"left" if k == 0 else "right"} wavelengths'
+        if not (_is_self_array(wa[2][0].items[1], 'wave') and _is_self_array(va[2][0].items[1], 'value')):
+            okpad, detpad = False, 'the original samples are not kept in the middle'
+    chk.ob('C15-b', 'D-pairing', fpad.key, 'pad: each padded wavelength gets one padded value (left with left, right with right)',
+           (okpad and npad > 0) if (npad or not okpad) else None, detpad or f'{npad} path(s)', fpad.loc())
+
     # ------------------------------------------------------------ C15-e / f
     fb = cls.find_method('bin')
     for method, label in (('trapz', 'trapezoid'), ('simps', 'Simpson')):
@@ -267,7 +298,8 @@ def run(chk, repo, tier):
             # power preservation: bins * integrate(min, max)/sum(bins)
             ig = p.calls(f'{SPEC}.integrate')
             okp = okp and len(ig) == 1 and p.ret == B * ig[0].result / nf.app('sum', B) and \
-                ig[0].bound.get('method') == Const(method)
+                ig[0].bound.get('method') == Const(method) and \
+                ig[0].bound.get('start') == nf.app('amin', S('wave')) and ig[0].bound.get('end') == nf.app('amax', S('wave'))
         tri = lambda ok: (ok and n > 0) if (not und or not ok) else None
         chk.ob('C15-f', 'N-formula', fb.key, f'{label} term over consecutive edges', tri(okq), '; '.join(und), fb.loc())
         chk.ob('C15-f', 'N-formula', fb.key, f'{label} loop visits every bin once (stride {"1" if method == "trapz" else "2"})',
